@@ -196,7 +196,8 @@ def tensor_cases(draw, tier):
     elif dtype == "bfloat16":
         E = draw(st.integers(2, 8)); M = draw(st.sampled_from([7, 7, 6]) | st.integers(0, 7))
     else:
-        E = draw(st.integers(2, 8)); M = draw(st.integers(0, 23))
+        # the corners of the format grid (widest exponent / mantissa: E8M23 is float32 itself, its maximum the float32 maximum) weighted up
+        E = draw(st.sampled_from([8, 8, 2]) | st.integers(2, 8)); M = draw(st.sampled_from([23, 23, 0]) | st.integers(0, 23))
     rank = draw(st.integers(0, 3))
     shape = [draw(st.integers(0, 5) if draw(st.integers(0, 9)) == 0 else st.integers(1, 5)) for _ in range(rank)]
     layout = draw(st.sampled_from(["contiguous", "transposed", "strided", "expanded"])) if rank >= 1 else "contiguous"
